@@ -291,6 +291,14 @@ class Recorder:
                 self.emit(('READ', sid))
                 return orig_cb(n)
             setattr(buf, cb_name, cb)
+        ev = getattr(stream, 'window_updated', None)
+        if ev is not None and hasattr(ev, 'clear'):
+            orig_clear = ev.clear
+
+            def clear():                         # the sender found no window and is about to wait
+                self.emit(('WAIT', sid))
+                return orig_clear()
+            ev.clear = clear
         if stream.wrapper is not None:          # client: the call's wrapper comes with the stream
             self.attached.add(sid)
             self._wrap_wrapper(sid, stream.wrapper)
@@ -314,7 +322,12 @@ class Recorder:
                 if stream.wrapper is not None and sid not in self.attached:
                     self.attached.add(sid)
                     self.tokens.append(('ATT', sid))
-                    if isinstance(wrapper_error(stream.wrapper)[1], asyncio.TimeoutError):
+                    # a wrapper already cancelled when first seen: nothing logged so far can have done it
+                    # (events that reach a wrapper trigger this poll before they are logged), so it was
+                    # its own deadline timer
+                    ok, err = wrapper_error(stream.wrapper)
+                    if isinstance(err, asyncio.TimeoutError) or \
+                            (err is None and getattr(stream.wrapper, 'cancelled', None)):
                         self.tokens.append(('DL', sid))
                     self._wrap_wrapper(sid, stream.wrapper)
         finally:
